@@ -14,7 +14,7 @@ RULE = (
     "inline) on the real Geometry group; non-trivial = output mesh differs from input (or the state is a default/no-op state)"
 )
 ASSUMPTIONS = ["finite alphabets for values; nx<=4, ny<=7", "left-half and full-span meshes (right halves are C07's subject)", "OpenMDAO/NumPy trusted"]
-BOUND = {"quick": "nx<=3 (+ one planform with nx=4), half ny 3-4 / full 5", "thorough": "nx<=4, ny<=7, more values"}
+BOUND = {"quick": "nx<=3 (+ one planform with nx=4), half ny 3-4 / full 5 exhaustively + production-size meshes 7x12, 9x21, 5x26", "thorough": "nx<=4, ny<=7, more values"}
 TOL = 1e-11
 
 SINGLE = {
@@ -57,6 +57,16 @@ def states(tier, seed):
         if rap in (0.25, 1.0) or tier == "thorough":
             for a, b in PAIRS:
                 st.append(dict(base, part="vars", dvs={a: [SINGLE[a][1], "const"], b: [SINGLE[b][2], "const"]}))
+    # production-size meshes (index arithmetic of every geometry variable beyond nx = 4, ny = 7)
+    for (pf, nx, (side, ny)), rap in itertools.product([("twdi", 7, ("left", 12)), ("camber", 9, ("full", 21)), ("swept", 5, ("left", 26))], [0.25, 1.0]):
+        base = dict(pf=pf, nx=nx, ny=ny, side=side, rap=rap, fam=fam)
+        st.append(dict(base, part="vars", dvs={}))
+        for dv, vals in SINGLE.items():
+            st.append(dict(base, part="vars", dvs={dv: [vals[-1], "vary" if dv in ("twist", "chord", "xshear", "yshear", "zshear") else "const"]}))
+        for a, b in PAIRS:
+            st.append(dict(base, part="vars", dvs={a: [SINGLE[a][1], "const"], b: [SINGLE[b][2], "const"]}))
+    for ncp, (side, ny), what in itertools.product([4, 9], [("left", 26), ("full", 41)], ["twist_cp", "chord_cp", "thickness_cp"]):
+        st.append(dict(part="spline", ncp=ncp, side=side, ny=ny, what=what, fam=fam))
     # steep dihedral / anhedral (V-tail, winglet-like: reference-axis segments steeper than 45 deg, both slopes) with twist of both signs
     for pf, (side, ny), dih, tw, kind in itertools.product(["rect", "swept"], [("left", 3), ("full", 5)], [60.0, -60.0], [4.0, -3.0], ["const", "vary"]):
         st.append(dict(pf=pf, nx=2, ny=ny, side=side, rap=0.25, fam=fam, part="vars", dvs={"dihedral": [dih, "const"], "twist": [tw, kind]}))
